@@ -14,7 +14,7 @@ Expression level
   * `f'a' + f'b'` -> one f-string;  `X.split(s)[-1]` -> `X.rsplit(s, 1)[-1]`
   * tests: `E != 0`, `len(X) > 0`, `len(X) >= 1` -> `E` / `len(X)`; `E == 0` -> `not E` (E an int by construction)
   * `map(f, X)` -> `(f(_m) for _m in X)`; `F([.. for ..])` -> `F(.. for ..)` for consumers of any iterable (join, set, sorted, any, ...)
-  * `{k: v for k, v in X.items()}` -> `dict(X)`
+  * `{k: v for k, v in X.items()}` -> `dict(X)`; `{k: x for k, (x, _) in {<display>}.items()}` -> the projected display
 Statement level
   * `if c: x = True else: x = False` -> `x = c`, `if c: return True else: return False` -> `return c` (c boolean-typed)
   * `if c: return B else: return False` -> `return c and B` and the three dual forms (c boolean-typed: exact)
@@ -271,6 +271,21 @@ class ExprCanon(ast.NodeTransformer):
 
     def visit_DictComp(self, node):
         self.generic_visit(node)
+        # {k: x for k, (x, _) in {<display>}.items()}  ->  the projected display
+        if len(node.generators) == 1 and not node.generators[0].ifs:
+            g = node.generators[0]
+            it = g.iter
+            if isinstance(it, ast.Call) and isinstance(it.func, ast.Attribute) and it.func.attr == "items" and not it.args and isinstance(it.func.value, ast.Dict) and all(k is not None for k in it.func.value.keys) and isinstance(g.target, ast.Tuple) and len(g.target.elts) == 2 and isinstance(g.target.elts[0], ast.Name) and isinstance(node.key, ast.Name) and node.key.id == g.target.elts[0].id and isinstance(node.value, ast.Name):
+                d = it.func.value
+                vt = g.target.elts[1]
+                proj = None
+                if isinstance(vt, ast.Name) and vt.id == node.value.id:
+                    proj = list(d.values)
+                elif isinstance(vt, ast.Tuple) and all(isinstance(x, ast.Name) for x in vt.elts) and node.value.id in [x.id for x in vt.elts] and all(isinstance(v, ast.Tuple) and len(v.elts) == len(vt.elts) for v in d.values):
+                    i = [x.id for x in vt.elts].index(node.value.id)
+                    proj = [v.elts[i] for v in d.values]
+                if proj is not None:
+                    return _loc(ast.Dict(keys=[copy.deepcopy(k) for k in d.keys], values=[copy.deepcopy(v) for v in proj]), node)
         # {k: v for k, v in X.items()} -> dict(X)
         if len(node.generators) == 1:
             g = node.generators[0]
